@@ -716,6 +716,8 @@ def run(chk):
 
 
 MUTANTS = [
+    ('flag vector as index tuple', 'yastn/tensor/_contractions.py', '    fss = (True,) * nsym if a.config.fermionic is True else a.config.fermionic', '    fss = tuple(range(nsym)) if a.config.fermionic is True else a.config.fermionic', 'K7'),
+    ('memoised function of Tensor objects', 'yastn/tensor/_merging.py', 'def _mask_tensors_leg_intersection(a, b, axa, axb):', '@lru_cache(maxsize=1024)\ndef _mask_tensors_leg_intersection(a, b, axa, axb):', 'K2'),
     ("memoised function reads module state", "yastn/tensor/_merging.py",
      "    s_eff = []\n    s_eff.append(struct.s[axes[0][0]] if len(axes[0]) > 0 else 1)", "    global _LAST_AXES\n    _LAST_AXES = axes\n    s_eff = []\n    s_eff.append(struct.s[axes[0][0]] if len(axes[0]) > 0 else 1)", "K1"),
     ("resize table pairs a cache with another function", "yastn/tensor/_control_lru.py",
